@@ -279,6 +279,38 @@ def reuse_sequence(rng, name, n, mn=3, op=4):
     return None, None
 
 
+def large_value_followup(seed, name, n, mn, op, codes):
+    """failing-input search after a plan-level disagreement: the real backend on ONE layer of shape `codes` (pairwise
+    different small-integer matrices, sparse integer psi) against the factor-by-factor oracle; feasible up to n ~ 23.
+    Returns None or a failure text."""
+    import random
+    rng = random.Random(seed)
+    mats, layer = [np.array(ID2, dtype=complex)], []
+    for c in codes:
+        if c == 0:
+            layer.append(-1)
+        elif c == 1:
+            layer.append(0)
+        else:
+            mats.append(np.array(rand_m(rng, 4 if c == 4 else 2), dtype=complex)); layer.append(len(mats) - 1)
+    psi = np.zeros(2 ** n, dtype=complex)
+    for _ in range(8):
+        psi[rng.randrange(2 ** n)] = rng.choice([1, -1, 1j, 2])
+    case = {"n": n, "min": mn, "opt": op, "mats": mats, "layers": [layer], "psi": psi}
+    want = oracle_factor(case)
+    try:
+        got = np.asarray(make_backend(name, n, mn, op).statevector(py_layers(case), psi.copy())).astype(complex)
+    except Exception as e:                      # noqa
+        return f"raised {type(e).__name__}: {str(e)[:100]}"
+    if got.shape != want.shape:
+        return f"returned shape {got.shape}"
+    scale = max(1.0, float(np.max(np.abs(want))))
+    err = float(np.max(np.abs(got - want)))
+    if err > 1e-9 * scale:
+        return f"the returned vector differs from the layered Kronecker product by {err:.3e} (largest component {scale:.3e})"
+    return None
+
+
 class PassThroughOptimizer:
     """stand-in for circ_optimizer.Optimizer that returns the list unchanged: separates the backend's own operator
     construction (C01, backend.py) from the optimizer's fusion (C02)"""
